@@ -242,21 +242,38 @@ pub fn check_register(o: &Outcome, wt: &HashMap<u64, WInfo>, a: &mut Analysis) {
   a.count("c11/reads_returning_a_value_checked", n_reads);
   a.count("c11/reads_returning_nothing", n_none);
   let mut stale_cand = 0u64;
+  // first return of a fetch_with that handed out each loaded value
+  let mut fw_ret: HashMap<u64, u64> = HashMap::new();
+  for rds in reads.values() {
+    for r in rds {
+      if r.e.kind == Kind::FetchWith && !r.e.is_open() {
+        let x = fw_ret.entry(r.wid).or_insert(u64::MAX);
+        *x = (*x).min(r.e.ret);
+      }
+    }
+  }
   for (key, rds) in &reads {
     let ws = writes.get(key).map(|v| v.as_slice()).unwrap_or(&[]);
     let rs = rem.get(key).map(|v| v.as_slice()).unwrap_or(&[]);
     for r in rds {
       let w = &wt[&r.wid];
-      // a fetch_with returning a loaded value may have joined the load itself
-      let joiner = r.e.kind == Kind::FetchWith && w.is_load;
-      if joiner {
-        continue;
+      // A fetch_with returning a loaded value may have joined the load itself. The load is over (value published,
+      // in-flight marker retired, waiters released) at the latest when some fetch_with has *returned* that value -
+      // other operations can see the value in the map earlier, while the load is still in flight. A fetch_with
+      // invoked after that point is an ordinary read of a resident value.
+      let mut w_ret = w.ret;
+      if r.e.kind == Kind::FetchWith && w.is_load {
+        let load_over = fw_ret.get(&r.wid).copied().unwrap_or(u64::MAX);
+        if !(load_over < r.e.call) {
+          continue; // leader or joiner of that load
+        }
+        w_ret = load_over;
       }
-      if w.ret == u64::MAX {
+      if w_ret == u64::MAX {
         continue;
       }
       for w2 in ws {
-        if w2.wid != w.wid && w.ret < w2.call && w2.ret < r.e.call {
+        if w2.wid != w.wid && w_ret < w2.call && w2.ret < r.e.call {
           a.push(P, format!("register/stale-read/{}", family(r.e.kind)),
             format!("{} of key {} returned value {} although the later write {} ({}) had completed before the read was invoked",
               r.e.form(), key, w.wid, w2.wid, w2.form),
@@ -266,7 +283,7 @@ pub fn check_register(o: &Outcome, wt: &HashMap<u64, WInfo>, a: &mut Analysis) {
         stale_cand += 1;
       }
       for &(rc, rr, form) in rs.iter().chain(clears.iter()) {
-        if w.ret < rc && rr < r.e.call {
+        if w_ret < rc && rr < r.e.call {
           a.push(P, format!("register/resurrection/{}", family(r.e.kind)),
             format!("{} of key {} returned value {} although a {} invoked after that write had completed before the read was invoked",
               r.e.form(), key, w.wid, form),
